@@ -244,34 +244,12 @@ where
         let p = scratch_shp("c01", c.geoms.len() + c.mid_fins as usize);
         let px = p.with_extension("shx");
         {
-            let mut w = match ShapeWriter::from_path(&p) {
+            let w = match ShapeWriter::from_path(&p) {
                 Ok(w) => w,
                 Err(e) => fail!("write-error", "from_path: {}", err_str(&e)),
             };
-            match c.fin {
-                Finish::WriteShapes => {
-                    if let Err(e) = w.write_shapes(shapes.iter()) {
-                        fail!("write-error", "disk write_shapes: {}", err_str(&e));
-                    }
-                }
-                f => {
-                    for (i, s) in shapes.iter().enumerate() {
-                        if let Err(e) = w.write_shape(s) {
-                            fail!("write-error", "disk write_shape: {}", err_str(&e));
-                        }
-                        if c.mid_fins & (1 << (i % 32)) != 0 {
-                            if let Err(e) = w.finalize() {
-                                fail!("write-error", "disk finalize after #{}: {}", i, err_str(&e));
-                            }
-                        }
-                    }
-                    if f == Finish::FinalizeDrop {
-                        if let Err(e) = w.finalize() {
-                            fail!("write-error", "disk finalize: {}", err_str(&e));
-                        }
-                    }
-                    drop(w);
-                }
+            if let Err(e) = drive_writer(w, &shapes, c.fin, c.mid_fins) {
+                fail!("write-error", "disk: {}", e);
             }
         }
         for with in [true, false] {
